@@ -6,6 +6,7 @@ CONSTANTS
   MaxClaims = 1
   BuildUnderLock = TRUE
   NotifyAlways = FALSE
+  CoalesceRebuilds = FALSE
 PROPERTIES
   L_Settles
 CHECK_DEADLOCK FALSE
